@@ -47,11 +47,12 @@ MUTATE = ("add_vertices", "add_edge", "add_edges_list", "delete_vertex", "delete
 # handles whose start_vertices list is their own object on the current tree (constructed with a list the
 # simulator made for them, parsed from a file, or deep-copied); rename/multiple share the parent's list and
 # remove_long_paths returns the constructor's shared default list, so those are never edited in place
-OWN_START_LIST = ("ctor_label", "ctor_out", "ctor_free", "load_kbmag", "load_builtin", "d_copy", "d_recurrent")
+OWN_START_LIST = ("ctor_label", "ctor_out", "ctor_free", "ctor_empty", "load_kbmag", "load_builtin", "d_copy",
+                  "d_recurrent")
 SHARES_START_LIST = ("d_rename", "d_multiple", "d_shortest")
 DERIVE = ("d_rename", "d_recurrent", "d_copy", "d_shortest", "d_multiple")
-CONSTRUCT = ("ctor_label", "ctor_out", "ctor_free", "load_kbmag", "load_builtin", "write_file",
-             "caller_edits_dict")
+CONSTRUCT = ("ctor_label", "ctor_out", "ctor_free", "ctor_empty", "load_kbmag", "load_builtin",
+             "write_file", "caller_edits_dict")
 QUERY = ("q_has_edge", "q_edge_label", "q_edge_labels", "q_neighbors", "q_edges_at",
          "q_vertices", "q_edges", "q_follow", "q_accepts", "q_prefix", "q_enum", "q_fixed",
          "q_str", "q_list_builtins")
@@ -346,7 +347,12 @@ class Engine:
         if r < 0.12:
             gens = rng.sample(["a", "b", "c"], rng.randint(1, 3))
             return {"op": "ctor_free", "new": self._new_id(world), "gens": sorted(gens)}
-        if r < 0.22 and live:
+        if r < 0.16:
+            U = self.universe(cfg)
+            # an automaton built up from nothing: FSA() / FSA(start_vertices=[...])
+            return {"op": "ctor_empty", "new": self._new_id(world),
+                    "starts": None if rng.random() < 0.4 else [rng.choice(U)]}
+        if r < 0.26 and live:
             h = self._pick(rng, world)
             return {"op": "d_copy", "new": self._new_id(world), "h": h.id}
         # reuse a caller-owned dict object for a second construction (same-source)
@@ -416,6 +422,7 @@ class Engine:
         return {
             "recname": rng.choice(["_RWS.wa", "_RWS.geowa", "_RWS.diff1", "wa"]),
             "indent": rng.choice([0, 1, 2, 4, 8]),
+            "tab": rng.random() < 0.15,
             "eol": rng.choice(["\n", "\n", "\r\n"]),
             "trailing_newline": rng.random() < 0.8,
             "assign": rng.choice([" := ", ":=", " :=", ":= ", "  :=  "]),
@@ -500,7 +507,22 @@ class Engine:
                     e = rng.choice(sorted(h.E, key=ekey))
                     t, hd = e[0], e[1]
                 if h.det_ok(t, l, hd):
-                    return {"op": "add_edge", "h": h.id, "e": [t, hd, l]}
+                    op = {"op": "add_edge", "h": h.id, "e": [t, hd, l]}
+                    if (t, hd, l) not in h.E and rng.random() < 0.2:
+                        op["ignore_redundant"] = False      # legal: the edge is new
+                    # sometimes several edges in one add_edges call
+                    if rng.random() < 0.2:
+                        more = []
+                        taken = {(t, l): hd}
+                        for _ in range(rng.randint(1, 3)):
+                            t2, hd2, l2 = rng.choice(pool), rng.choice(pool), rng.choice(labs)
+                            if h.det_ok(t2, l2, hd2) and taken.get((t2, l2), hd2) == hd2:
+                                taken[(t2, l2)] = hd2
+                                more.append([t2, hd2, l2])
+                        if more:
+                            op["more"] = more
+                            op.pop("ignore_redundant", None)
+                    return op
             return None
         if r < 0.66:
             pool = Vl + U
@@ -818,6 +840,22 @@ class Engine:
             world.nontrivial = True
         return "ok"
 
+    def _do_ctor_empty(self, world, op, vs):
+        starts = op.get("starts")
+        try:
+            if starts is None:
+                a = self.fsa.FSA()
+            else:
+                starts = list(starts)
+                a = self.fsa.FSA(start_vertices=starts)
+        except Exception as e:
+            vs.append(viol("C09", "ctor_empty.raised", repr(e)))
+            return "raised:" + type(e).__name__
+        h = self._register(world, op["new"], a, set(), set(), starts or [], "ctor_empty")
+        if starts is None:
+            h.slist = "default"        # the constructor's shared default list: never edited in place
+        return "ok"
+
     def _do_ctor_free(self, world, op, vs):
         gens = list(op["gens"])
         allg = gens + [g.upper() for g in gens]
@@ -1000,13 +1038,30 @@ class Engine:
         t, hd, l = op["e"]
         if not h.det_ok(t, l, hd):
             return "skipped:nondeterministic"
-        out = self._mut(world, op, vs, lambda a: a.add_edges([(t, hd, l)]))
+        edges = [(t, hd, l)]
+        trial = set(h.E) | {(t, hd, l)}
+        for e in op.get("more") or []:
+            t2, hd2, l2 = e
+            if any(x[0] == t2 and x[2] == l2 and x[1] != hd2 for x in trial):
+                return "skipped:nondeterministic"
+            trial.add((t2, hd2, l2))
+            edges.append((t2, hd2, l2))
+        if op.get("ignore_redundant") is False:
+            if (t, hd, l) in h.E or len(edges) > 1:
+                return "skipped:redundant"
+            out = self._mut(world, op, vs, lambda a: a.add_edges([(t, hd, l)], ignore_redundant=False))
+            world.stats["probe.add_edge_ignore_redundant_false"] += 1
+        else:
+            out = self._mut(world, op, vs, lambda a: a.add_edges(list(edges)))
+        if len(edges) > 1:
+            world.stats["probe.add_several_edges_in_one_call"] += 1
         if (t, hd, l) in h.E:
             world.stats["probe.add_existing_edge"] += 1
         elif any(e[0] == t and e[1] == hd for e in h.E):
             world.stats["probe.add_parallel_edge"] += 1
-        h.V |= {t, hd}
-        h.E.add((t, hd, l))
+        for (t2, hd2, l2) in edges:
+            h.V |= {t2, hd2}
+            h.E.add((t2, hd2, l2))
         return out
 
     def _do_add_edges_list(self, world, op, vs):
